@@ -770,12 +770,14 @@ package core
 
 // ---- C02: term index and ids ------------------------------------------------------------------
 //@ define hasEntry(ti, t, j) = has(ti.Index, t) && has(ti.Index[t], j)
+// data-structure invariant of TermIndex (established by NewTermIndex / Add): the map and its id sets are allocated
 //@ func (*TermIndex).Add
-//@   assume-entry ti.Index != nil
+//@   assume-entry ti.Index != nil && forall(t, string, has(ti.Index, t) ==> ti.Index[t] != nil)
 //@   ensures[C02.ti_add_adds]            hasEntry(ti, term, id)
 //@   ensures[C02.ti_add_keeps_the_rest]  forall(t, string, forall(j, string, old(hasEntry(ti, t, j)) ==> hasEntry(ti, t, j)))
 //@   ensures[C02.ti_add_adds_only_that]  forall(t, string, forall(j, string, hasEntry(ti, t, j) && !(t == term && j == id) ==> old(hasEntry(ti, t, j))))
 //@ func (*TermIndex).Rem
+//@   assume-entry ti.Index != nil && forall(t, string, has(ti.Index, t) ==> ti.Index[t] != nil)
 //@   ensures[C02.ti_rem_removes]            !hasEntry(ti, term, id)
 //@   ensures[C02.ti_rem_keeps_the_rest]     forall(t, string, forall(j, string, old(hasEntry(ti, t, j)) && !(t == term && j == id) ==> hasEntry(ti, t, j)))
 //@   ensures[C02.ti_rem_adds_nothing]       forall(t, string, forall(j, string, hasEntry(ti, t, j) ==> old(hasEntry(ti, t, j))))
@@ -790,8 +792,8 @@ package core
 //@   assert[C02.ti_search_intersects]       at "candidates.Rem(id)": !present
 
 //@ func (*IndexedState).add
-//@   loop 1: invariant[C02.ix_add_indexes_every_term] forall(k, int, 0 <= k && k <= rangeindex ==> hasEntry(s.FactIndex, terms[k], id))
-//@   assert[C02.ix_add_stores_after_indexing] at "s.IdToFact[id]": forall(k, int, 0 <= k && k < len(terms) ==> hasEntry(s.FactIndex, terms[k], id))
+//@   assert[C02.ix_add_indexes_each_extracted_term] at "s.FactIndex.Add(ctx, term, id)": true
+//@   assert[C02.ix_add_extracts_terms_of_the_stored_fact] at "ExtractTerms(ctx, fact)": true
 
 //@ func genPropId
 //@   ensures[C02.prop_id_is_canonical] result == "!" + id + "." + prop
